@@ -16,9 +16,13 @@ VALS = {"i": ["-1", "0", "1", "2", "7", "4"], "b": ["0", "1", "5"], "f": ["-1", 
         "s": ["-", "61", "6162", "6261", "616263", "42", "63"]}
 
 
+MODNAMES = ["time", "tim", "hash", "math", "pe"]  # identifiers that are also names of built-in modules (the objects table is shared with them)
+
+
 def gen_case(r, cid):
     ops = []
     declared = {}
+    NAMES = globals()["NAMES"] if r.random() < 0.75 else MODNAMES
     for _ in range(r.randint(1, 5)):
         n = r.choice(NAMES)
         t = r.choice("ibfs")
